@@ -29,6 +29,7 @@ type scenario struct {
 	expect  string            // verdict demanded when the honest publisher is the one asked for: accept | reject | reject-or-same | ""
 	wantCid cid.Cid
 	sig     string // failure signature
+	noCase  bool   // oracles only: the response is too large for a Coq literal
 }
 
 func (sc scenario) replay(kind string, expected peer.ID) *replayT {
@@ -99,7 +100,7 @@ func sampleOnce(c *vlib.Ctx, key string, s interface{}) {
 
 // ---- level 1: Decode + Validate ----
 
-func doValidate(c *vlib.Ctx, sc scenario) { doValidateOpt(c, sc, true) }
+func doValidate(c *vlib.Ctx, sc scenario) { doValidateOpt(c, sc, !sc.noCase) }
 
 // withCase=false: oracles only (the gethead case of the same response carries the same decoded head)
 func doValidateOpt(c *vlib.Ctx, sc scenario, withCase bool) {
@@ -171,8 +172,10 @@ func doGetHead(c *vlib.Ctx, sc scenario, expected peer.ID) callResult {
 	if curOpt != "" {
 		c.Count("gethead-option:" + curOpt)
 	}
-	c.Case("gethead", fmt.Sprintf("(GetHeadCase %s %s %s)", optPeerTerm(expected), resp, obsTerm(r.kind, okTerm, 0)),
-		map[string]interface{}{"scenario": sc.name, "key_type": sc.keyType, "expected": peerStr(expected), "client_options": curOpt, "observed": r.kind, "replay": rp})
+	if !sc.noCase {
+		c.Case("gethead", fmt.Sprintf("(GetHeadCase %s %s %s)", optPeerTerm(expected), resp, obsTerm(r.kind, okTerm, 0)),
+			map[string]interface{}{"scenario": sc.name, "key_type": sc.keyType, "expected": peerStr(expected), "client_options": curOpt, "observed": r.kind, "replay": rp})
+	}
 	if v != nil && strings.HasPrefix(v.sigTerm, "(WSSig") {
 		c.Nontrivial(fmt.Sprintf("gethead/%s/%s/%s/%s", curOpt, sc.keyType, sc.name, optPeerTerm(expected)))
 	}
